@@ -521,25 +521,30 @@ def compileItems (cfg : Cfg) (d : Deco) (pw minW : Nat) (first : Nat → List Ch
   | n :: ns => .sub pw minW (first i) rest false (compile cfg d n) :: compileItems cfg d pw minW first rest (i + 1) ns
 end
 
+/-- one character of a hard-wrapped footnote: start a new piece when it no longer fits -/
+def linkStep (ftag : Ann) (width : Nat) (acc : List TLine × TLine × Nat) (c : Ch) : List TLine × TLine × Nat :=
+  let cw := if c.ctrl then 0 else c.w
+  if acc.2.2 + cw > width then (acc.1 ++ [acc.2.1], [Elt.cell ⟨c, [ftag]⟩], cw)
+  else (acc.1, acc.2.1 ++ [Elt.cell ⟨c, [ftag]⟩], acc.2.2 + cw)
+
 /-- fmt_links for one line of plain text -/
 def fmtLinkLine (cfg : Cfg) (ftag : Ann) (width : Nat) (s : List Ch) : List TLine :=
   let s := s.map fun c => if c.cp = 10 then spaceCh else c
   if cfg.wrapLinks && dispW s > width then
-    let r := s.foldl (fun (acc : List TLine × TLine × Nat) c =>
-      let (done, cur, pos) := acc
-      let cw := if c.ctrl then 0 else c.w
-      if pos + cw > width then (done ++ [cur], [Elt.cell ⟨c, [ftag]⟩], cw)
-      else (done, cur ++ [Elt.cell ⟨c, [ftag]⟩], pos + cw)) ([], [], 0)
+    let r := s.foldl (linkStep ftag width) ([], [], 0)
     r.1 ++ [r.2.1]
   else [s.map fun c => Elt.cell ⟨c, [ftag]⟩]
+
+/-- the footnote list as plain text: `[k]: target` for every link, in the order of the link list -/
+def footTexts (cfg : Cfg) (links : List (List Ch)) : List (List Ch) :=
+  if cfg.footnotes then (links.zipIdx.map fun (u, i) => strCh "[" ++ natCh (i + 1) ++ strCh "]: " ++ u) else []
 
 /-- render_tree_to_string + into_lines -/
 def renderTree (cfg : Cfg) (d : Deco) (width : Nat) (tree : RNode) : Except Err (List RLine) :=
   if width = 0 then .error .tooNarrow else
   andThen (runOps SubR.widthMinus cfg d { cur := { width := width } } (compile cfg d tree)) fun t =>
   let s := t.cur
-  let foot : List (List Ch) := if cfg.footnotes then
-    (t.links.zipIdx.map fun (u, i) => strCh "[" ++ natCh (i + 1) ++ strCh "]: " ++ u) else []
+  let foot : List (List Ch) := footTexts cfg t.links
   if foot.isEmpty then s.intoLines else
   andThen s.startBlock fun s1 =>
   (s1.addLines ((foot.flatMap (fmtLinkLine cfg (d.annOf Ann.dflt) s1.width)).map RLine.text)).intoLines
